@@ -1,4 +1,6 @@
 import DtsVerif.Props.C01
+import DtsVerif.Props.C05
+import Mathlib.Tactic.FieldSimp
 /-!
 # C02 — double-ended calibration is the weighted least-squares fit, with its covariance
 The optimality, fitted-value uniqueness, g-inverse and fixed-parameter theorems of `Props/C01.lean` are stated for any
@@ -80,5 +82,227 @@ theorem C02_cov_positions (inp : Input) (res : Result) (h : calibrate inp = some
 /-- the documented double-ended layout: index of `τ^{d}_{a,j}` -/
 theorem C02_ta_index (inp : Input) (a d j : Nat) :
     inp.colTaD a d j = 1 + 2 * inp.nt + inp.N + j + inp.nt * d + 2 * inp.nt * a := rfl
+
+/-! ## The splice gauge: what a double-ended fit with a splice cannot determine, and why the temperatures do not care -/
+
+/-- the code's weighted time average: `Σ(a/v) · (1/Σ(1/v))` -/
+def wmean (terms : List (Rat × Rat)) : Rat :=
+  terms.foldl (fun acc t => acc + t.1 / t.2) 0 * (1 / terms.foldl (fun acc t => acc + 1 / t.2) 0)
+
+theorem foldl_add_eq_sum {α} (f : α → Rat) (l : List α) (acc : Rat) :
+    l.foldl (fun acc t => acc + f t) acc = acc + (l.map f).sum := by
+  induction l generalizing acc with
+  | nil => simp
+  | cons a l ih => simp only [List.foldl_cons, List.map_cons, List.sum_cons]; rw [ih]; ring
+
+theorem sum_map_add_div (terms : List (Rat × Rat)) (δ : Rat) :
+    ((terms.map fun t => (t.1 + δ, t.2)).map fun t => t.1 / t.2).sum
+      = (terms.map fun t => t.1 / t.2).sum + δ * (terms.map fun t => 1 / t.2).sum := by
+  induction terms with
+  | nil => simp
+  | cons a l ih =>
+    simp only [List.map_cons, List.sum_cons] at ih ⊢
+    rw [ih]; ring
+
+theorem sum_map_inv_shift (terms : List (Rat × Rat)) (δ : Rat) :
+    ((terms.map fun t => (t.1 + δ, t.2)).map fun t => 1 / t.2).sum = (terms.map fun t => 1 / t.2).sum := by
+  induction terms with
+  | nil => simp
+  | cons a l ih => simp only [List.map_cons, List.sum_cons] at ih ⊢; rw [ih]
+
+/-- shifting every per-time estimate by `δ` (variances unchanged) shifts the weighted time average by `δ` -/
+theorem wmean_shift (terms : List (Rat × Rat)) (δ : Rat)
+    (h : (terms.map fun t => 1 / t.2).sum ≠ 0) :
+    wmean (terms.map fun t => (t.1 + δ, t.2)) = wmean terms + δ := by
+  unfold wmean
+  rw [foldl_add_eq_sum (fun t : Rat × Rat => t.1 / t.2), foldl_add_eq_sum (fun t : Rat × Rat => 1 / t.2),
+    foldl_add_eq_sum (fun t : Rat × Rat => t.1 / t.2), foldl_add_eq_sum (fun t : Rat × Rat => 1 / t.2)]
+  rw [sum_map_add_div, sum_map_inv_shift]
+  simp only [zero_add]
+  field_simp
+
+/-- the per-time estimate of `alpha` at location `i` and the variance the code assigns to it (the summands of `alphaOutside`) -/
+def alphaTerm (inp : Input) (p v : Array Rat) (i j : Nat) : Rat × Rat :=
+  ((inp.iB.at i j - inp.iF.at i j) / 2 + (p.getD (inp.colDb j) 0 - p.getD (Input.colDf j) 0) / 2
+      + (upstreamSum inp i (fun a => p.getD (inp.colTaD a 1 j) 0) false
+          - upstreamSum inp i (fun a => p.getD (inp.colTaD a 0 j) 0) true) / 2,
+   (inp.vF.at i j + inp.vB.at i j + v.getD (inp.colDb j) 0 + v.getD (Input.colDf j) 0
+      + upstreamSum inp i (fun a => v.getD (inp.colTaD a 0 j) 0) true
+      + upstreamSum inp i (fun a => v.getD (inp.colTaD a 1 j) 0) false) / 2)
+
+theorem alphaOutside_fst (inp : Input) (p v : Array Rat) (i : Nat) :
+    (alphaOutside inp p v i).1 = wmean ((List.range inp.nt).map (alphaTerm inp p v i)) := rfl
+
+/-- **C02 (alpha outside the reference sections follows the gauge).** If two parameter vectors give per-time estimates that differ
+by the same `δ` at location `i` (same variances), the weighted time averages differ by `δ`. -/
+theorem C02_alpha_outside_shift (inp : Input) (p p' v : Array Rat) (i : Nat) (δ : Rat)
+    (hterm : ∀ j, j < inp.nt → alphaTerm inp p' v i j = ((alphaTerm inp p v i j).1 + δ, (alphaTerm inp p v i j).2))
+    (hw : (((List.range inp.nt).map (alphaTerm inp p v i)).map fun t => 1 / t.2).sum ≠ 0) :
+    (alphaOutside inp p' v i).1 = (alphaOutside inp p v i).1 + δ := by
+  rw [alphaOutside_fst, alphaOutside_fst, ← wmean_shift _ δ hw]
+  congr 1
+  rw [List.map_map]
+  apply List.map_congr_left
+  intro j hj
+  exact hterm j (List.mem_range.mp hj)
+
+/-- **C02 (temperatures do not see the gauge), forward.** Adding `δ` to `alpha` at a location and removing it from the summed
+forward splice loss there leaves `tmpf` unchanged. -/
+theorem C02_tmpf_gauge_invariant (inp : Input) (hd : inp.doubleEnded = true) (p p' : Array Rat) (i j : Nat) (δ : Rat)
+    (hγ : p'.getD Input.colGamma 0 = p.getD Input.colGamma 0)
+    (hdf : p'.getD (Input.colDf j) 0 = p.getD (Input.colDf j) 0)
+    (hα : p'.getD (inp.colA i) 0 = p.getD (inp.colA i) 0 + δ)
+    (hτ : upstreamSum inp i (fun a => p'.getD (inp.colTaD a 0 j) 0) true
+          = upstreamSum inp i (fun a => p.getD (inp.colTaD a 0 j) 0) true - δ) :
+    tmpf inp p' i j = tmpf inp p i j := by
+  unfold tmpf
+  simp only [hd, if_true, hγ, hdf, hα, hτ]
+  congr 2
+  ring
+
+/-- backward: `db` grows by `δ` everywhere, `alpha` by `δα` and the summed backward splice loss shrinks by `δ − δα`
+(`δα = δ` downstream of the splice, `0` upstream) -/
+theorem C02_tmpb_gauge_invariant (inp : Input) (p p' : Array Rat) (i j : Nat) (δ δα : Rat)
+    (hγ : p'.getD Input.colGamma 0 = p.getD Input.colGamma 0)
+    (hdb : p'.getD (inp.colDb j) 0 = p.getD (inp.colDb j) 0 + δ)
+    (hα : p'.getD (inp.colA i) 0 = p.getD (inp.colA i) 0 + δα)
+    (hτ : upstreamSum inp i (fun a => p'.getD (inp.colTaD a 1 j) 0) false
+          = upstreamSum inp i (fun a => p.getD (inp.colTaD a 1 j) 0) false - (δ - δα)) :
+    tmpb inp p' i j = tmpb inp p i j := by
+  unfold tmpb
+  simp only [hγ, hdb, hα, hτ]
+  congr 2
+  ring
+
+theorem list_sum_map_sub {α} (l : List α) (g h : α → Rat) :
+    (l.map fun a => g a - h a).sum = (l.map g).sum - (l.map h).sum := by
+  induction l with
+  | nil => simp
+  | cons a l ih => simp only [List.map_cons, List.sum_cons]; rw [ih]; ring
+
+theorem sum_range_single (n s : Nat) (hs : s < n) (g : Nat → Rat) :
+    ((List.range n).map fun a => if a = s then g a else 0).sum = g s := by
+  induction n with
+  | zero => omega
+  | succ n ih =>
+    rw [List.range_succ, List.map_append, List.sum_append]
+    by_cases h : s < n
+    · rw [ih h]; simp; omega
+    · have : s = n := by omega
+      subst this
+      have h0 : ((List.range s).map fun a => if a = s then g a else 0).sum = 0 := by
+        apply List.sum_eq_zero
+        intro x hx
+        obtain ⟨a, ha, rfl⟩ := List.mem_map.mp hx
+        have := List.mem_range.mp ha
+        simp; omega
+      rw [h0]; simp
+
+/-- changing the loss of one splice `s` by `−δ` changes the summed loss at a location by `−δ` exactly when `s` acts there -/
+theorem upstreamSum_sub_single (inp : Input) (i : Nat) (f : Nat → Rat) (down : Bool) (s : Nat) (δ : Rat) (hs : s < inp.nta) :
+    upstreamSum inp i (fun a => f a - (if a = s then δ else 0)) down
+      = upstreamSum inp i f down - (if (decide (inp.xAt i ≥ inp.trans.getD s 0)) == down then δ else 0) := by
+  rw [C05.upstreamSum_eq, C05.upstreamSum_eq]
+  have key : ∀ a, (if (decide (inp.xAt i ≥ inp.trans.getD a 0)) == down then f a - (if a = s then δ else 0) else 0)
+      = (if (decide (inp.xAt i ≥ inp.trans.getD a 0)) == down then f a else 0)
+        - (if a = s then (if (decide (inp.xAt i ≥ inp.trans.getD a 0)) == down then δ else 0) else 0) := by
+    intro a; split <;> split <;> simp
+  simp only [key]
+  rw [list_sum_map_sub]
+  congr 1
+  exact sum_range_single inp.nta s hs (fun a => if (decide (inp.xAt i ≥ inp.trans.getD a 0)) == down then δ else 0)
+
+theorem upstreamSum_congr (inp : Input) (i : Nat) (f g : Nat → Rat) (down : Bool) (h : ∀ a, a < inp.nta → f a = g a) :
+    upstreamSum inp i f down = upstreamSum inp i g down := by
+  rw [C05.upstreamSum_eq, C05.upstreamSum_eq]
+  congr 1
+  apply List.map_congr_left
+  intro a ha
+  rw [h a (List.mem_range.mp ha)]
+
+/-- the gauge direction of one splice `s`: `db += δ`, both losses of `s` `−= δ` (at every time), `alpha += δ` downstream of `s` -/
+structure SpliceGauge (inp : Input) (s : Nat) (δ : Rat) (p p' : Array Rat) : Prop where
+  gamma : p'.getD Input.colGamma 0 = p.getD Input.colGamma 0
+  df : ∀ j, j < inp.nt → p'.getD (Input.colDf j) 0 = p.getD (Input.colDf j) 0
+  db : ∀ j, j < inp.nt → p'.getD (inp.colDb j) 0 = p.getD (inp.colDb j) 0 + δ
+  taf : ∀ a j, a < inp.nta → j < inp.nt → p'.getD (inp.colTaD a 0 j) 0 = p.getD (inp.colTaD a 0 j) 0 - (if a = s then δ else 0)
+  tab : ∀ a j, a < inp.nta → j < inp.nt → p'.getD (inp.colTaD a 1 j) 0 = p.getD (inp.colTaD a 1 j) 0 - (if a = s then δ else 0)
+
+/-- the shift of `alpha` at location `i` that belongs to the gauge: `δ` downstream of the splice, `0` upstream -/
+def gaugeAlpha (inp : Input) (s i : Nat) (δ : Rat) : Rat := if inp.xAt i ≥ inp.trans.getD s 0 then δ else 0
+
+theorem gauge_taf_sum (inp : Input) (s : Nat) (δ : Rat) (p p' : Array Rat) (g : SpliceGauge inp s δ p p') (hs : s < inp.nta)
+    (i j : Nat) (hj : j < inp.nt) :
+    upstreamSum inp i (fun a => p'.getD (inp.colTaD a 0 j) 0) true
+      = upstreamSum inp i (fun a => p.getD (inp.colTaD a 0 j) 0) true - gaugeAlpha inp s i δ := by
+  rw [upstreamSum_congr inp i _ (fun a => p.getD (inp.colTaD a 0 j) 0 - (if a = s then δ else 0)) true (fun a ha => g.taf a j ha hj),
+    upstreamSum_sub_single inp i _ true s δ hs]
+  unfold gaugeAlpha
+  by_cases h : inp.xAt i ≥ inp.trans.getD s 0
+  · rw [if_pos h, decide_eq_true h]; simp
+  · rw [if_neg h, decide_eq_false h]; simp
+
+theorem gauge_tab_sum (inp : Input) (s : Nat) (δ : Rat) (p p' : Array Rat) (g : SpliceGauge inp s δ p p') (hs : s < inp.nta)
+    (i j : Nat) (hj : j < inp.nt) :
+    upstreamSum inp i (fun a => p'.getD (inp.colTaD a 1 j) 0) false
+      = upstreamSum inp i (fun a => p.getD (inp.colTaD a 1 j) 0) false - (δ - gaugeAlpha inp s i δ) := by
+  rw [upstreamSum_congr inp i _ (fun a => p.getD (inp.colTaD a 1 j) 0 - (if a = s then δ else 0)) false (fun a ha => g.tab a j ha hj),
+    upstreamSum_sub_single inp i _ false s δ hs]
+  unfold gaugeAlpha
+  by_cases h : inp.xAt i ≥ inp.trans.getD s 0
+  · rw [if_pos h, decide_eq_true h]; simp
+  · rw [if_neg h, decide_eq_false h]; simp
+
+/-- **C02 (the splice gauge is invisible in the temperatures).** A double-ended fit with a splice does not determine
+`db`, the two losses of the splice and `alpha` downstream of it separately: moving along the gauge direction changes neither
+`tmpf` nor `tmpb` at any location whose `alpha` moves with it — which is why only estimable quantities are compared (and why
+`C02_estimable_invariant` is the statement for rank-deficient fits). -/
+theorem C02_splice_gauge_temperatures (inp : Input) (hd : inp.doubleEnded = true) (s : Nat) (hs : s < inp.nta) (δ : Rat)
+    (p p' : Array Rat) (g : SpliceGauge inp s δ p p') (i j : Nat) (hj : j < inp.nt)
+    (hα : p'.getD (inp.colA i) 0 = p.getD (inp.colA i) 0 + gaugeAlpha inp s i δ) :
+    tmpf inp p' i j = tmpf inp p i j ∧ tmpb inp p' i j = tmpb inp p i j :=
+  ⟨C02_tmpf_gauge_invariant inp hd p p' i j _ g.gamma (g.df j hj) hα (gauge_taf_sum inp s δ p p' g hs i j hj),
+   C02_tmpb_gauge_invariant inp p p' i j δ _ g.gamma (g.db j hj) hα (gauge_tab_sum inp s δ p p' g hs i j hj)⟩
+
+/-- **C02 (alpha outside the reference sections moves with the gauge).** The weighted time average that defines `alpha` at a
+location outside the reference sections shifts by exactly the gauge's `alpha` shift there, so the hypothesis `hα` of
+`C02_splice_gauge_temperatures` holds at those locations too: the temperatures are determined everywhere. -/
+theorem C02_splice_gauge_alpha_outside (inp : Input) (s : Nat) (hs : s < inp.nta) (δ : Rat)
+    (p p' v : Array Rat) (g : SpliceGauge inp s δ p p') (i : Nat)
+    (hw : (((List.range inp.nt).map (alphaTerm inp p v i)).map fun t => 1 / t.2).sum ≠ 0) :
+    (alphaOutside inp p' v i).1 = (alphaOutside inp p v i).1 + gaugeAlpha inp s i δ := by
+  apply C02_alpha_outside_shift inp p p' v i _ _ hw
+  intro j hj
+  unfold alphaTerm
+  rw [g.db j hj, g.df j hj, gauge_taf_sum inp s δ p p' g hs i j hj, gauge_tab_sum inp s δ p p' g hs i j hj]
+  ext
+  · simp only; ring
+  · rfl
+
+/-! ### Non-vacuity: a concrete gauge pair (three locations, one time, one splice between the 2nd and 3rd location) -/
+def exInp : Input :=
+  { doubleEnded := true, x := #[0, 1, 2], nt := 1, ixSec := #[0, 2], K := #[], trans := #[3/2], pairs := #[], iF := #[], iB := #[],
+    vF := #[], vB := #[], fixGamma := none, fixDalpha := none, fixAlpha := none, c273 := 27315/100, wbits := 128, codeWeightOrder := false }
+def exP : Array Rat := #[480, 1, 1, 0, 0, 0, 1/10, 1/5]
+def exP' : Array Rat := #[480, 1, 3/2, 0, 0, 1/2, -2/5, -3/10]
+
+example : SpliceGauge exInp 0 (1/2) exP exP' := by
+  refine ⟨by decide +kernel, ?_, ?_, ?_, ?_⟩
+  · intro j hj; have : j = 0 := by simp [exInp] at hj; omega
+    subst this; decide +kernel
+  · intro j hj; have : j = 0 := by simp [exInp] at hj; omega
+    subst this; decide +kernel
+  · intro a j ha hj
+    have h1 : a = 0 := by simp [exInp, Input.nta] at ha; omega
+    have h2 : j = 0 := by simp [exInp] at hj; omega
+    subst h1; subst h2; decide +kernel
+  · intro a j ha hj
+    have h1 : a = 0 := by simp [exInp, Input.nta] at ha; omega
+    have h2 : j = 0 := by simp [exInp] at hj; omega
+    subst h1; subst h2; decide +kernel
+
+example : exP'.getD (exInp.colA 2) 0 = exP.getD (exInp.colA 2) 0 + gaugeAlpha exInp 0 2 (1/2) := by decide +kernel
+example : exP'.getD (exInp.colA 1) 0 = exP.getD (exInp.colA 1) 0 + gaugeAlpha exInp 0 1 (1/2) := by decide +kernel
+
 
 end DtsVerif.C02
